@@ -1,5 +1,102 @@
-"""Rule self-test (thorough tier): AST-computed broken variants and benign twins (built below)."""
+"""Rule self-test (thorough tier).
+
+The variant bank lives in /verif:
+  seeded/<id>/patch.diff            changes that break a property (written by independent sub-agents, confirmed by
+                                    running their demonstration with and without the change)
+  seeded_fixes/<commit>/patch.diff  each `fix:` commit of /repo, reverted
+  benign/<id>/patch.diff            behaviour-preserving refactorings (must stay silent)
+  seeded_neutralised/<id>/…         changes that no longer break anything (must stay silent)
+Each meta.json lists ``expected_checks``: the properties whose check is known to fire on that variant.
+
+For property P the self-test applies every variant that concerns P to a scratch copy of the *current* tree of
+/repo (python sources only, under /tmp, removed afterwards), runs P's quick check on it and compares:
+a broken variant must fire, a benign one must stay silent.  A variant whose patch no longer applies is skipped.
+The verdict on /repo itself is computed before and independently of this (sa/check.py).
+"""
+from __future__ import annotations
+
+import json
+import os
+import shutil
+import subprocess
+import tempfile
+from concurrent.futures import ThreadPoolExecutor
+from typing import Dict, List, Tuple
+
+VERIF = os.path.dirname(os.path.dirname(os.path.abspath(__file__)))
+BROKEN_DIRS = ("seeded", "seeded_fixes")
+SILENT_DIRS = ("benign", "seeded_neutralised")
 
 
-def run_for(prop, repo):
-    return {"variants": 0, "failed": 0, "note": "self-test bank not built yet"}
+def _copy_tree(repo: str) -> str:
+    d = tempfile.mkdtemp(prefix="sa_selftest_", dir="/tmp")
+    subprocess.run(["rsync", "-a", "--include=*/", "--include=*.py", "--exclude=*", "--exclude=data/", "--prune-empty-dirs",
+                    os.path.join(repo, "spil"), os.path.join(repo, "spil_hamlet_conf"), os.path.join(repo, "spil_plugins"), d + "/"],
+                   check=True)
+    return d
+
+
+def _variants(prop: str) -> List[Tuple[str, str, str]]:
+    """(name, patch path, expectation 'fire'|'silent')"""
+    out = []
+    for dn in BROKEN_DIRS:
+        base = os.path.join(VERIF, dn)
+        for v in sorted(os.listdir(base)) if os.path.isdir(base) else []:
+            mp = os.path.join(base, v, "meta.json")
+            pp = os.path.join(base, v, "patch.diff")
+            if not (os.path.exists(mp) and os.path.exists(pp)):
+                continue
+            try:
+                meta = json.load(open(mp))
+            except Exception:
+                continue
+            if prop in meta.get("expected_checks", []):
+                out.append((f"{dn}/{v}", pp, "fire"))
+    for dn in SILENT_DIRS:
+        base = os.path.join(VERIF, dn)
+        for v in sorted(os.listdir(base)) if os.path.isdir(base) else []:
+            pp = os.path.join(base, v, "patch.diff")
+            if os.path.exists(pp):
+                out.append((f"{dn}/{v}", pp, "silent"))
+    return out
+
+
+def _run_one(args) -> Tuple[str, str, str]:
+    name, patch, expect, prop, repo = args
+    d = _copy_tree(repo)
+    try:
+        r = subprocess.run(["git", "apply", "--unsafe-paths", "--directory", d, patch], cwd=d, capture_output=True, text=True)
+        if r.returncode != 0:
+            r = subprocess.run(["patch", "-p1", "-s", "--dry-run", "-i", patch], cwd=d, capture_output=True, text=True)
+            if r.returncode != 0:
+                return name, expect, "skipped"
+            subprocess.run(["patch", "-p1", "-s", "-i", patch], cwd=d, capture_output=True, text=True)
+        r = subprocess.run(["/venv/bin/python", "-m", "sa.check", prop, "--tier", "quick", "--repo", d, "--no-evidence"],
+                           cwd=VERIF, capture_output=True, text=True)
+        got = {0: "silent", 1: "fire"}.get(r.returncode, "analysis-error")
+        return name, expect, got
+    finally:
+        shutil.rmtree(d, ignore_errors=True)
+
+
+def run_for(prop: str, repo: str) -> Dict:
+    vs = _variants(prop)
+    jobs = [(n, p, e, prop, repo) for n, p, e in vs]
+    with ThreadPoolExecutor(max_workers=int(os.environ.get("SA_JOBS", "14"))) as ex:
+        results = list(ex.map(_run_one, jobs))
+    fired = [n for n, e, g in results if e == "fire" and g == "fire"]
+    silent = [n for n, e, g in results if e == "silent" and g == "silent"]
+    skipped = [n for n, e, g in results if g == "skipped"]
+    # a benign variant that ends as analysis-error is not an alarm (exit 2 is never a verdict), but it is reported
+    inconclusive = [n for n, e, g in results if g == "analysis-error"]
+    failures = [f"{n}: expected {e}, got {g}" for n, e, g in results if g not in ("skipped", "analysis-error") and g != e]
+    return {
+        "variants": len(results),
+        "broken_variants_fired": len(fired),
+        "benign_variants_silent": len(silent),
+        "skipped_patch_does_not_apply": len(skipped),
+        "inconclusive_analysis_error": inconclusive,
+        "failed": len(failures),
+        "failures": failures,
+        "samples": [n for n in fired[:4]] + [n for n in silent[:2]],
+    }
